@@ -147,8 +147,8 @@ func mnorm(n *sqlparse.Node) *sqlparse.Node {
 		if callNames[n.S] && pure(n) {
 			return raw(ntext(n))
 		}
-		if n.S == "mapFilter" && len(n.Kids) == 2 && n.Kids[0].Kind == "raw" && n.Kids[0].S == "(k,v) -> 0" { // by ()
-			return &sqlparse.Node{Kind: "sep", S: "", Kids: []*sqlparse.Node{raw("mapFilter((k,v) -> 0, "), mnorm(n.Kids[1]), raw(")")}}
+		if n.S == "mapFilter" && len(n.Kids) == 2 && n.Kids[0].Kind == "raw" && (n.Kids[0].S == "(k,v) -> 0" || n.Kids[0].S == "(k,v) -> 1") { // by ()
+			return &sqlparse.Node{Kind: "sep", S: "", Kids: []*sqlparse.Node{raw("mapFilter(" + n.Kids[0].S + ", "), mnorm(n.Kids[1]), raw(")")}}
 		}
 		if n.S == "mapFilter" && len(n.Kids) == 2 && n.Kids[0].Kind == "in" && n.Kids[0].L != nil && n.Kids[0].L.Kind == "raw" {
 			op := ""
